@@ -42,7 +42,7 @@ LEVEL_TEXT = ('The file-selection table and the small layering space are enumera
               '(sort order, dot-files, sub-directories, missing directories, formats) are sampled. Finite parts exhaustive, '
               'the rest structured sampling.')
 LEVEL_NOTE = 'trusted: the fold that computes the expected effective layer; PyYAML/json as writers'
-PLAN = {'quick': dict(shards=4, wall=60), 'thorough': dict(shards=16, wall=400)}
+PLAN = {'quick': dict(shards=4, wall=120), 'thorough': dict(shards=16, wall=400)}
 MIN = {'evaluations': 600, 'decisions': 5000, 'allow_decisions': 300, 'file_selection_rows': 560,
        'configs_with_shadowing': 300, 'scoped_decisions': 500, 'reloads_after_rewrite': 200,
        'reload_histories': 300, 'history_steps': 700, 'history_steps_two_operations': 200,
